@@ -33,6 +33,9 @@ pub struct Fx {
     /// names used in the body without being parameters
     #[serde(default)]
     pub body_uses: Vec<String>,
+    /// signature spread over several lines, one parameter per line
+    #[serde(default)]
+    pub multiline: bool,
 }
 
 impl Fx {
@@ -54,6 +57,8 @@ pub struct Tst {
     pub in_class: bool,
     #[serde(default)]
     pub body_uses: Vec<String>,
+    #[serde(default)]
+    pub multiline: bool,
 }
 
 #[derive(Clone, Debug, Serialize, Deserialize, PartialEq)]
@@ -163,6 +168,22 @@ fn param_list(w_line_prefix: &str, names: &[String], leading_self: bool) -> (Str
     (s, spans)
 }
 
+/// `def f(` / one parameter per line / `)`: returns the lines and, per parameter, (name, line offset, start, end).
+fn param_lines(prefix: &str, ind: &str, names: &[String], leading_self: bool) -> (Vec<String>, Vec<(String, usize, usize, usize)>) {
+    let mut lines = vec![format!("{}(", prefix)];
+    let mut spans = vec![];
+    if leading_self {
+        lines.push(format!("{}    self,", ind));
+    }
+    for n in names {
+        let st = ind.len() + 4;
+        spans.push((n.clone(), lines.len(), st, st + n.len()));
+        lines.push(format!("{}    {},", ind, n));
+    }
+    lines.push(format!("{})", ind));
+    (lines, spans)
+}
+
 pub fn render(items: &[Item]) -> Rendered {
     let mut w = W { text: String::new(), line: 1 };
     let mut out = Rendered::default();
@@ -247,17 +268,31 @@ pub fn render(items: &[Item]) -> Rendered {
                 let def_line = w.line;
                 let prefix = format!("{}def {}", ind, f.func);
                 let name_start = ind.len() + 4;
-                let (mut sig, spans) = param_list(&prefix, &f.deps, f.in_class);
-                if let Some(r) = &f.ret {
-                    sig.push_str(&format!(" -> {}", r));
-                }
-                sig.push(':');
                 out.toks.push(Tok { kind: TokKind::Def, name: f.name().to_string(), line: def_line, start: name_start, end: name_start + f.func.len(), item: idx, in_fixture: None });
                 out.defs.push((f.name().to_string(), def_line, idx));
-                for (n, s, e) in spans {
-                    out.toks.push(Tok { kind: TokKind::FixtureParam, name: n, line: def_line, start: s, end: e, item: idx, in_fixture: Some((f.name().to_string(), def_line)) });
+                if f.multiline && !f.deps.is_empty() {
+                    let (mut lines, spans) = param_lines(&prefix, ind, &f.deps, f.in_class);
+                    if let Some(r) = &f.ret {
+                        lines.last_mut().unwrap().push_str(&format!(" -> {}", r));
+                    }
+                    lines.last_mut().unwrap().push(':');
+                    for (n, off, s, e) in spans {
+                        out.toks.push(Tok { kind: TokKind::FixtureParam, name: n, line: def_line + off, start: s, end: e, item: idx, in_fixture: Some((f.name().to_string(), def_line)) });
+                    }
+                    for l in &lines {
+                        w.ln(l);
+                    }
+                } else {
+                    let (mut sig, spans) = param_list(&prefix, &f.deps, f.in_class);
+                    if let Some(r) = &f.ret {
+                        sig.push_str(&format!(" -> {}", r));
+                    }
+                    sig.push(':');
+                    for (n, s, e) in spans {
+                        out.toks.push(Tok { kind: TokKind::FixtureParam, name: n, line: def_line, start: s, end: e, item: idx, in_fixture: Some((f.name().to_string(), def_line)) });
+                    }
+                    w.ln(&sig);
                 }
-                w.ln(&sig);
                 if let Some(d) = &f.doc {
                     w.ln(&format!("{}    \"\"\"{}\"\"\"", ind, d));
                 }
@@ -313,12 +348,23 @@ pub fn render(items: &[Item]) -> Rendered {
                     w.ln(&s);
                 }
                 let prefix = format!("{}def {}", ind, t.name);
-                let (mut sig, spans) = param_list(&prefix, &t.params, t.in_class);
-                sig.push(':');
-                for (n, s, e) in spans {
-                    out.toks.push(Tok { kind: TokKind::TestParam, name: n, line: w.line, start: s, end: e, item: idx, in_fixture: None });
+                if t.multiline && !t.params.is_empty() {
+                    let (mut lines, spans) = param_lines(&prefix, ind, &t.params, t.in_class);
+                    lines.last_mut().unwrap().push(':');
+                    for (n, off, s, e) in spans {
+                        out.toks.push(Tok { kind: TokKind::TestParam, name: n, line: w.line + off, start: s, end: e, item: idx, in_fixture: None });
+                    }
+                    for l in &lines {
+                        w.ln(l);
+                    }
+                } else {
+                    let (mut sig, spans) = param_list(&prefix, &t.params, t.in_class);
+                    sig.push(':');
+                    for (n, s, e) in spans {
+                        out.toks.push(Tok { kind: TokKind::TestParam, name: n, line: w.line, start: s, end: e, item: idx, in_fixture: None });
+                    }
+                    w.ln(&sig);
                 }
-                w.ln(&sig);
                 for u in &t.body_uses {
                     let l = format!("{}    _ = {}", ind, u);
                     let st = ind.len() + 8;
@@ -347,11 +393,13 @@ pub struct GenOpts {
     pub assign_style: bool,
     /// dependencies only point to names later in the pool: no dependency cycle can arise
     pub acyclic: bool,
+    /// signatures spread over several lines
+    pub multiline_per_mille: u32,
 }
 
 impl Default for GenOpts {
     fn default() -> Self {
-        GenOpts { max_fixtures: 3, max_tests: 2, self_dep_per_mille: 150, dup_names: false, scopes: true, alias: true, in_class: true, marks: true, body_uses: true, assign_style: true, acyclic: false }
+        GenOpts { max_fixtures: 3, max_tests: 2, self_dep_per_mille: 150, dup_names: false, scopes: true, alias: true, in_class: true, marks: true, body_uses: true, assign_style: true, acyclic: false, multiline_per_mille: 120 }
     }
 }
 
@@ -402,6 +450,7 @@ pub fn gen_items(rng: &mut Rng, names: &[String], is_test_file: bool, o: &GenOpt
             in_class: o.in_class && style != 2 && rng.chance(60),
             doc: if rng.chance(200) { Some("doc".to_string()) } else { None },
             body_uses: if o.body_uses && style != 2 && rng.chance(150) { subset(rng, names, 1) } else { vec![] },
+            multiline: rng.chance(o.multiline_per_mille),
         }));
     }
     if o.marks && rng.chance(80) {
@@ -419,6 +468,7 @@ pub fn gen_items(rng: &mut Rng, names: &[String], is_test_file: bool, o: &GenOpt
             indirect: if o.marks && rng.chance(100) { subset(rng, names, 1) } else { vec![] },
             in_class: o.in_class && rng.chance(150),
             body_uses: if o.body_uses && rng.chance(200) { subset(rng, names, 2) } else { vec![] },
+            multiline: rng.chance(o.multiline_per_mille),
         }));
     }
     rng.shuffle(&mut items);
